@@ -1417,10 +1417,19 @@ func (p *Printer) command(cmd Command, redirs []*Redirect) (startRedirs int) {
 			p.flushComments()
 			p.level--
 		}
-		p.comments(cmd.Last...)
-		if p.swtCaseIndent {
-			p.flushComments()
+		if p.swtCaseIndent && len(cmd.Items) > 0 {
+			// After an item, the parser only leaves in Last the comments
+			// aligned with esac; any other belongs to the item. Print
+			// them at the level of esac, or they change owner when the
+			// output is parsed again.
 			p.decLevel()
+			p.comments(cmd.Last...)
+		} else {
+			p.comments(cmd.Last...)
+			if p.swtCaseIndent {
+				p.flushComments()
+				p.decLevel()
+			}
 		}
 		p.semiRsrv("esac", cmd.Esac)
 		// The ;; tokens above set wroteSemi, which no longer holds after esac.
